@@ -46,9 +46,9 @@ func (c *xClient) Do(req *http.Request) (*http.Response, error) {
 		return nil, errors.New("connection reset")
 	}
 	if i == c.bodyErrAt {
-		return &http.Response{StatusCode: c.status, Header: http.Header{"X-Tok": []string{"v"}}, Body: &xBrokenBody{data: c.body}}, nil
+		return &http.Response{StatusCode: c.status, Header: http.Header{"X-Tok": []string{"v"}}, Body: &xBrokenBody{data: c.body}, Request: req, ProtoMajor: 1, ProtoMinor: 1}, nil
 	}
-	return &http.Response{StatusCode: c.status, Header: http.Header{"X-Tok": []string{"v"}}, Body: io.NopCloser(strings.NewReader(c.body))}, nil
+	return &http.Response{StatusCode: c.status, Header: http.Header{"X-Tok": []string{"v"}}, Body: io.NopCloser(strings.NewReader(c.body)), Request: req, ProtoMajor: 1, ProtoMinor: 1}, nil
 }
 func (c *xClient) CloseIdleConnections() {}
 
@@ -121,6 +121,12 @@ type xStorage struct{}
 
 func (xStorage) Variables() map[string]any { return map[string]any{"k": "srcval"} }
 
+// DumpRequestOut (answlog) drives a private transport over an in-memory pipe: environment, stubbed
+// symbolically (the native replay runs the real one)
+func vStub_net_http_httputil_DumpRequestOut(req *http.Request, body bool) ([]byte, error) {
+	return []byte("GET / HTTP/1.1\r\n\r\n"), nil
+}
+
 func HarnessC15ScenarioShot() {
 	nSteps := int(vConcretize(vNondetInt("steps", 1, vHi(3, 5))))
 	failStep := int(vConcretize(vNondetInt("failStep", -1, int64(nSteps)-1))) // -1: none fails
@@ -151,8 +157,23 @@ func HarnessC15ScenarioShot() {
 			Preprocessor: pre, Postprocessors: []Postprocessor{post}, Headers: map[string]string{"H": "1"}})
 	}
 	ag := &xAggr{}
-	g := &ScenarioGun{base: &phttp.BaseGun{Config: phttp.GunConfig{Target: "t.example:80", TargetResolved: "10.0.0.1:80"}, Client: cl}}
+	// logging / tracing options change what is logged, never what is executed or reported
+	gcfg := phttp.GunConfig{Target: "t.example:80", TargetResolved: "10.0.0.1:80"}
+	logMode := vConcretize(vNondetInt("logMode", 0, 3))
+	if logMode != 0 {
+		vAssume(nSteps == 2) // the logging variants are explored on two-step scenarios
+	}
+	switch logMode {
+	case 1:
+		gcfg.HTTPTrace.TraceEnabled, gcfg.HTTPTrace.DumpEnabled = true, true
+		// (the response dump renders the status text: a few representative codes instead of all)
+		vAssume(cl.status == 200 || cl.status == 302 || cl.status == 404 || cl.status == 503)
+	case 2:
+		gcfg.AnswLog.Enabled, gcfg.AnswLog.Filter = true, "all"
+	}
+	g := &ScenarioGun{base: &phttp.BaseGun{Config: gcfg, Client: cl, AnswLog: zap.NewNop()}}
 	_ = g.Bind(ag, core.GunDeps{Ctx: context.Background(), Log: zap.NewNop()})
+	g.base.DebugLog = logMode == 3
 	sc := &Scenario{Requests: reqs, Name: "sc", VariableStorage: xStorage{}, ID: 5}
 	g.Shoot(sc) // R1: returns normally whatever the target does
 
